@@ -318,6 +318,9 @@ def batch(a, prop, machine, t0):
                     agg["samples"].extend(r["samples"])
             if capped:
                 pending = set(f for f in pending if not f.cancelled() and not f.done())
+    if agg["probes"].get("harness_inconsistency"):
+        raise HarnessError("a checker stopped early on %d plan(s) as generated (generator/model inconsistency)"
+                           % agg["probes"]["harness_inconsistency"])
     # determinism probe verdict
     mism = [i for i in local if i in agg["digests"] and agg["digests"][i] != local[i]]
     if mism:
